@@ -24,8 +24,8 @@ extern void mon_report_contracts(void);
 extern size_t __sanitizer_get_current_allocated_bytes(void) __attribute__((weak));
 extern void single_getter_step(const char *kind, const char *id, const char *id2);
 
-static int watchdog_ms = 60000;
-static volatile int finished = 0;
+static atomic_int watchdog_ms = 60000;
+static atomic_int finished = 0;
 static int session_running = 0;
 
 /* ------------------------------------------------------------------ big event writer (snapshots) */
@@ -76,7 +76,7 @@ NOINST static void *watchdog(void *arg) {
 	mon_dump_all("watchdog");
 	mon_dump_log(40);
 	if (c) hx_violation("deadlock", "wait-for cycle: %s", cyc);
-	ev("\"e\":\"hang\",\"cycle\":%d,\"ms\":%d", c, watchdog_ms);
+	ev("\"e\":\"hang\",\"cycle\":%d,\"ms\":%d", c, (int)watchdog_ms);
 	_exit(98);
 }
 NOINST static void on_crash(int sig) {
@@ -301,8 +301,8 @@ int main(int argc, char **argv) {
 	mon_report_edges();
 	mon_report_contracts();
 	mon_thread_summary();
-	extern volatile long log_lines;
-	ev("\"e\":\"end\",\"steps\":%ld,\"viol\":%d,\"tx_msgs\":%ld,\"tx_bytes\":%ld,\"rx_pkts\":%ld,\"log_lines\":%ld,\"heap\":%zu", steps, hx_violations, bus_tx_msgs, bus_tx_bytes, bus_rx_pkts, log_lines, heap_bytes());
+	extern atomic_long log_lines;
+	ev("\"e\":\"end\",\"steps\":%ld,\"viol\":%d,\"tx_msgs\":%ld,\"tx_bytes\":%ld,\"rx_pkts\":%ld,\"log_lines\":%ld,\"heap\":%zu", steps, (int)hx_violations, bus_tx_msgs, bus_tx_bytes, bus_rx_pkts, (long)log_lines, heap_bytes());
 	finished = 1;
 	__real_pthread_join(wd, NULL);
 	return rc;
